@@ -464,7 +464,9 @@ def run(ck):
                "random compatible unit (prefix, other unit of the dimension, extra dimensionless factor: radian percent count "
                "ppm ... — the list is in the evidence); operands snapshotted around every application; ndarray (object dtype, exact) targets for the "
                "in-place twins (incl. dimensionless targets not in root units with bare operands); ==, <, <=, >, >= (also with operands written in "
-               "offset units — kelvin <-> degC, degF, degRe — against the ordering of the root values, and a < b <=> b > a); every bundled context "
+               "offset units — kelvin <-> degC, degF, degRe — against the ordering of the root values, and a < b <=> b > a; and on NDARRAY quantities — object/float64/int64, "
+               "dimensionless-but-scaled units included — vs bare numbers, arrays, quantities in both operand orders: operands unchanged, "
+               "second evaluation agrees, every element agrees with the scalar comparison); every bundled context "
                "ACTIVE (dimension mismatch across the dimensions it relates must still raise; same-dimension results unchanged); "
                "float / Decimal / int magnitudes with tolerance (labelled tests); Python-int magnitudes in the Fraction registry with EXACT "
                "comparison where a float result is itself a failure; int magnitudes in the Decimal registry; malformed "
@@ -1154,6 +1156,110 @@ def run(ck):
                         pass
         ck.case(key=("cmp-offset", kinds, tuple(names), str(ra), str(rb)))
         ck.count("cmp/eq with offset units:" + kinds)
+    # ---------------- stream 4c: comparisons of NDARRAY quantities: nothing is modified, evaluating twice agrees, and every
+    # element agrees with the scalar comparison (bare numbers / arrays / quantities, both operand orders)
+    Wf = World(float)
+    Wf.setup_universe(W)
+    Wf.exact_ureg = W.ureg
+    Wf.fac = W.fac
+
+    import warnings
+
+    def canon_cmp(fn):
+        try:
+            with warnings.catch_warnings():
+                warnings.simplefilter("ignore")          # NaN comparisons on float arrays
+                r_ = fn()
+            if r_ is NotImplemented:
+                return ("err", "XType")
+            return ("ok", tuple(bool(x) for x in np.ravel(np.asarray(r_))))
+        except Skip:
+            raise
+        except Exception as e:      # noqa: BLE001
+            return ("err", errclass(e))
+
+    ALLCMP = dict(CMPS, eq=operator.eq, ne=operator.ne)
+    ndc_n = N(260, 2000)
+    for i in range(0 if os.environ.get('C03_NO_NDCMP') else ndc_n):
+        flavour = rng.choice(["object", "object", "float64", "int64"])
+        Wx = W if flavour == "object" else Wf
+        d = dimless_nonroot() if rng.random() < 0.6 else runits()
+        n = rng.randint(1, 3)
+        ints = flavour == "int64"
+        am = [F(rng.randint(-300, 300)) if ints or rng.random() < 0.5 else rmag() for _ in range(n)]
+
+        def mkarr(ms):
+            if flavour == "object":
+                return np.array([F(m) for m in ms], dtype=object)
+            if flavour == "int64":
+                return np.array([int(m) for m in ms], dtype=np.int64)
+            return np.array([float(m) for m in ms], dtype=np.float64)
+
+        def scal(m):
+            return F(m) if flavour == "object" else (int(m) if ints else float(m))
+        w = rng.random()
+        try:
+            fa = W.fac(d)
+        except Skip:
+            continue
+        if w < 0.5:                              # bare number, near the physical values so that truth values vary
+            ref = am[rng.randrange(n)] * (fa if not W.dim(d) and fa is not None else 1)
+            bv = rng.choice([0, 1, 2, F(1, 2), float("nan"), ref, ref + 1, F(ref) / 2 if ref else 1])
+            if flavour != "object" and isinstance(bv, F):
+                bv = float(bv)
+            kind, mkB, elemB = "number", (lambda: bv), (lambda j: bv)
+        elif w < 0.65:                           # bare array (right operand only)
+            bl = [rng.choice([0, 1, 2, -3]) for _ in range(n)] if rng.random() < 0.7 else [0] * n
+            kind, mkB, elemB = "array", (lambda: mkarr(bl)), (lambda j: scal(bl[j]))
+        else:                                    # quantity: same dimension in other units mostly, scalar or array
+            d2 = alt_units(d) if rng.random() < 0.85 else runits()
+            try:
+                if W.fac(d2) is None:
+                    continue
+            except Skip:
+                continue
+            bl = [F(rng.randint(-300, 300)) if ints else rmag() for _ in range(n if rng.random() < 0.6 else 1)]
+            kind = "quantity"
+            mkB = (lambda: Wx.Q(mkarr(bl) if len(bl) > 1 else scal(bl[0]), regk.mkuc(Wx.ureg, d2)))
+            elemB = (lambda j: Wx.Q(scal(bl[j] if len(bl) > 1 else bl[0]), regk.mkuc(Wx.ureg, d2)))
+        for name, fn in ALLCMP.items():
+            for order in (("AB", "BA") if kind != "array" else ("AB",)):
+                try:
+                    A, B = Wx.Q(mkarr(am), regk.mkuc(Wx.ureg, d)), mkB()
+                    sA, sB = snap(A), snap(B)
+                    call = (lambda: fn(A, B)) if order == "AB" else (lambda: fn(B, A))
+                    o1 = canon_cmp(call)
+                    fA, fB = snap_eq(sA, snap(A)), snap_eq(sB, snap(B))
+                    o2 = canon_cmp(call)
+                    rp = {"kind": "ndarray-cmp", "op": name, "order": order, "dtype": flavour, "a": [str(x) for x in am],
+                          "a_units": {k: str(v) for k, v in d.items()}, "b": repr(sB[1:]) if sB[0] == "Q" else repr(sB[1])}
+                    if not (fA and fB):
+                        fail(f"frame:{name}:ndarray-cmp:{'array' if not fA else 'other'}-operand",
+                             f"comparison {name} ({order}, {flavour} array {[str(x) for x in am]} {dict(d)} vs {kind} {rp['b']}) modified an operand: "
+                             f"array quantity {sA[1]!r} -> {snap(A)[1]!r}; other {sB!r} -> {snap(B)!r}", rp)
+                    if o1 != o2:
+                        fail(f"repeat:{name}:ndarray-cmp", f"evaluating {name} ({order}) twice on the same objects gives {o1} then {o2} "
+                             f"({flavour} array {[str(x) for x in am]} {dict(d)} vs {kind} {rp['b']})", rp)
+                    # element by element against the scalar comparison on fresh objects
+                    exp = []
+                    for j in range(n):
+                        Aj, Bj = Wx.Q(scal(am[j]), regk.mkuc(Wx.ureg, d)), elemB(j)
+                        exp.append(canon_cmp((lambda: fn(Aj, Bj)) if order == "AB" else (lambda: fn(Bj, Aj))))
+                    errs = {e[1] for e in exp if e[0] == "err"}
+                    o1b = o1
+                    if o1[0] == "ok" and len(o1[1]) == 1 and n > 1:
+                        o1 = ("ok", o1[1] * n)           # a scalar answer (== between different dimensions) stands for every element
+                    if o1[0] == "ok":
+                        want = ("ok", tuple(e[1][0] for e in exp)) if not errs else None
+                    else:
+                        want = ("err", o1[1]) if o1[1] in errs else None
+                    if want != o1 and len(errs) <= 1 and (not errs or all(e[0] == "err" for e in exp)):
+                        fail(f"elementwise:{name}:ndarray-cmp:{kind}", f"{name} ({order}) on the {flavour} array gives {o1} but element by element {exp} "
+                             f"(array {[str(x) for x in am]} {dict(d)} vs {kind} {rp['b']})", rp)
+                except Skip:
+                    continue
+        ck.case(key=("nd-cmp", flavour, kind, tuple(sorted(d))))
+        ck.count(f"ndarray-cmp:{flavour}:{kind}")
     lap('cmp')
     # ---------------- stream 5: oracles on the statement itself at every + / - node of fresh pairs
     rule_n = N(500, 2500)
